@@ -126,7 +126,8 @@ PROP_WEIGHTS = {
     "C02": {"get": 3, "propfind": 3, "multiget": 3, "query": 2, "sync": 2, "proppatch": 4, "put_over": 12},
     "C03": {"put_cond": 14, "delete_cond": 8, "get_cond": 6, "put_over": 10, "post": 1, "mkcol": 0.5, "mkcalendar": 0.5},
     "C06": {"put_uidclash": 10, "put_over": 10, "put_new": 10, "delete": 7, "restart": 2, "evict": 3, "mkcol": 0.3, "proppatch": 0.5},
-    "C07": {"sync": 10, "put_same": 3, "put_revert": 4, "delete": 8, "put_new": 10, "put_over": 8, "mkcol": 0.3},
+    "C07": {"sync": 16, "put_same": 3, "put_revert": 4, "delete": 12, "put_new": 10, "put_over": 10, "mkcol": 0.3, "put_invalid": 0.5,
+            "propfind": 0.3, "get": 0.3, "multiget": 0.3, "query": 0.3, "proppatch": 1, "post": 2},
     "C08": {"put_same": 3, "put_revert": 5, "delete": 8, "put_invalid": 3, "put_cond": 4, "get": 2, "propfind": 2},
     "C09": {"put_same": 4, "put_revert": 3, "proppatch": 6, "delete": 6, "put_invalid": 2, "put_cond": 3, "clock": 3},
     "C14": {"put_invalid": 10, "reupload": 10, "put_new": 10, "put_over": 6, "restart": 2},
@@ -222,6 +223,7 @@ class HistRun:
         CLOCK.reset()
         FS.reset()
         w = self.world = World(self.arena, self.cfg)
+        w.on_req = self.log
         w.boot()
         # defaults created by start-up
         m = self.model
@@ -609,8 +611,8 @@ class HistRun:
             c = self.pick_coll(("calendar", "addressbook", "plain"))
             toks = self.tokens.get(c.path, [])
             choice = r.random()
-            if toks and choice < 0.55:
-                tok = {"issued": r.randrange(len(toks))}
+            if toks and choice < 0.6:
+                tok = {"issued": r.randrange(max(1, (len(toks) + 1) // 2)) if r.random() < 0.7 else r.randrange(len(toks))}
             elif choice < 0.7:
                 tok = {"lit": ""}
             elif choice < 0.8:
@@ -908,7 +910,7 @@ class HistRun:
                     c.members[name] = MMember(body, op["ctype"])
                     ctx["rel"] = rel
                 else:
-                    self.v("C16", "C16.location-unresolvable", "POST %s -> Location %r" % (coll, loc), site="post-location")
+                    self.count("post_location_not_a_member_path")
                     self.adopt = (coll, body, op["ctype"])
         return ctx
 
